@@ -225,7 +225,22 @@ func TestConcurrentHistories(t *testing.T) {
 		zero := kind == "zero"
 		progs := make([][]hop, ng)
 		canon := fmt.Sprintf("%s|", kind)
+		// half of the cases are bursts: every goroutine settles the same way and looks at the channel right away, so that
+		// the moment between "decided" and "channel closed" of the first settlement is probed from many sides at once
+		shape := rapid.SampledFrom([]string{"random", "random", "burst-ack", "burst-nack"}).Draw(t, "shape")
+		if zero && shape != "random" {
+			shape = "random" // zero-value messages have no channels to probe (see assumptions)
+		}
 		for g := range progs {
+			if shape != "random" {
+				settle, probe := opAck, opProbeAck
+				if shape == "burst-nack" {
+					settle, probe = opNack, opProbeNack
+				}
+				progs[g] = []hop{{o: settle}, {o: probe}}
+				canon += shape + ";"
+				continue
+			}
 			n := rapid.IntRange(1, 6).Draw(t, "nops")
 			for i := 0; i < n; i++ {
 				maxOp := int(opProbeNack)
